@@ -25,6 +25,7 @@ def build(u):
     # --- impl Update: new() -------------------------------------------------------------
     im = u.item('src/second_chance.rs', ['impl Update'])
     new = u.under_contract(im.sub(['fn new']), SERVES)
+    new.air = 'second_chance::Update::new'
     new.contract(
         ensures=[
             ('C08 C07:plan-equals-classical-clock',
@@ -52,7 +53,7 @@ def build(u):
     new.insert_after('for entry in', ' it:')
     K = '(to_evict@.len() + to_move_back@.len())'
     new.loop_contract(0, invariant=[
-        ('C08:scan-frame', 'it.seq() == p && p.len() > capacity && must_remove == p.len() - capacity && q0 == init_queue(p, %s)' % ACC),
+        ('C08:scan-frame', 'it.seq() == p && p.len() >= capacity && must_remove == p.len() - capacity && q0 == init_queue(p, %s)' % ACC),
         ('C08:sorted-permutation-of-input', 'sorted_by(p, %s) && p.to_multiset() == s0.to_multiset() && p.len() == s0.len()' % KEY),
         ('C08:scan-is-a-clock-prefix', 'scan_state(q0, %s as int, to_evict@, to_move_back@, must_remove as nat)' % K),
     ], invariant_except_break=[
